@@ -31,30 +31,42 @@ const (
 	attemptsPerCell = 3
 )
 
-// cells returns the fixed enumeration: 7 x 4 x 2 = 56 cells plus the two
-// "session ends before the preface was forwarded" cells.
+// cells returns the fixed enumeration: 9 events x 4 states x 2 delayed
+// directions = 72 cells, the "write-blocked" state with the 5 events the relay
+// can observe there x 2 = 10 cells, 2 cells ending the session before the
+// preface was forwarded and 3 cells ending it while the upstream TLS handshake
+// is still in progress: 87 cells.
 func cells() []h2term.Cell {
 	var cs []h2term.Cell
+	dirs := []string{"c2s", "s2c"}
 	for _, st := range h2term.States {
 		for _, ev := range h2term.Events {
-			for _, d := range []string{"c2s", "s2c"} {
+			for _, d := range dirs {
 				cs = append(cs, h2term.Cell{Kind: "cell", Event: ev, State: st, Delay: d})
 			}
+		}
+	}
+	for _, ev := range h2term.WriteBlockedEvents {
+		for _, d := range dirs {
+			cs = append(cs, h2term.Cell{Kind: "cell", Event: ev, State: "write-blocked", Delay: d})
 		}
 	}
 	cs = append(cs,
 		h2term.Cell{Kind: "cell", Event: "client-close", State: "preface", Delay: "-"},
 		h2term.Cell{Kind: "cell", Event: "proto-error-client", State: "preface", Delay: "-"})
+	for _, ev := range h2term.DialingEvents {
+		cs = append(cs, h2term.Cell{Kind: "cell", Event: ev, State: "dialing", Delay: "-"})
+	}
 	return cs
 }
 
-// caseList is the fixed list of a batch: (rep, cell) pairs, Idx = rep*64+cell.
+// caseList is the fixed list of a batch: (rep, cell) pairs, Idx = rep*128+cell.
 func caseList(batch string) []h2term.Cell {
 	all := cells()
 	var out []h2term.Cell
 	add := func(rep, i int) {
 		c := all[i]
-		c.Idx = rep*64 + i
+		c.Idx = rep*128 + i
 		out = append(out, c)
 	}
 	kind, ks, _ := strings.Cut(batch, "-")
@@ -95,18 +107,22 @@ func main() {
 	vh.Main(&vh.Prop{
 		ID:    "C10",
 		Level: "fault_enumeration",
-		Rule: "terminating events {client-close, server-close, write-fail-client, write-fail-server, proto-error-client, proto-error-server, closing} x " +
+		Rule: "terminating events {client-close, server-close, write-fail-client, write-fail-server, proto-error-client, proto-error-server, closing, " +
+			"server-then-client-close, client-then-server-close} x " +
 			"session states {idle, mid-stream, blocked (DATA queued in the relay behind a zero stream window or an exhausted connection window), " +
-			"chan-full (>15 frames behind a writer parked at the hook point, reader optionally parked on the 17th push)} x " +
-			"direction parked at the reader hook point {c2s, s2c} = 56 cells, plus 2 cells ending the session before the preface is forwarded; " +
-			"PRNG traffic, marker frame, malformed-frame kind, queue lengths and gate release order per (VERIF_SEED, idx). A class is a distinct " +
-			"event/state/delay cell whose state and delay were observed to be in place before the event and on which the oracle ran",
+			"chan-full (>15 frames behind a writer parked at the hook point; reader, or the peer's reader flushing a backlog, parked on the 17th push)} x " +
+			"direction parked at the reader hook point {c2s, s2c} = 72 cells; write-blocked (server stopped reading, relay's socket write toward it blocked, " +
+			"reader parked behind it) x 5 observable events x 2 = 10 cells; 2 cells ending the session before the preface is forwarded; 3 cells ending it " +
+			"while the upstream TLS handshake is in progress. PRNG traffic, marker frame, malformed-frame kind, queue lengths and gate release order per " +
+			"(VERIF_SEED, idx). A class is a distinct event/state/delay cell whose state and delay were observed to be in place before the event and on " +
+			"which the oracle ran",
 		Assumptions: []string{
 			"'returns within a bounded time' is decided as 'returns without further input once the terminating event happened' (quiescence: all session goroutines parked, byte counters and hook counters unchanged over 6 samples after a 5 s grace)",
 			"the caller owns the client connection: the harness closes it only after Proxy has returned (as proxy.go does); the goroutine census is taken after that close",
 			"'upstream closed' is observed as: no descriptor of the process refers to the relay's socket inode any more, and, when the harness server is still reading, the server has read EOF/reset",
 			"a malformed frame is one that is a connection error for every HTTP/2 endpoint (frame-size / stream-0 / HPACK errors); stream errors and unknown frame types are not used as terminating events",
-			"a client or server that merely stops reading is not one of the enumerated terminating events and is not exercised",
+			"a peer that stops reading is exercised on the upstream side only (the relay owns that connection and can break its own blocked write); in that state the events that only the parked client->server reader could observe (client-close, proto-error-client) are not enumerated; a client that stops reading is not exercised (see notes/C10.md)",
+			"when Proxy returns while the upstream connection is still being established (dialing cells), its close is awaited instead of being demanded at the instant of the return",
 		},
 		RaceFiles:  []string{"/h2/"},
 		Exhaustive: func(string) bool { return false },
